@@ -4,10 +4,13 @@ All randomness comes from a ``numpy.random.Generator`` derived from
 (VERIF_SEED, check id, case index) by the check.
 """
 import math
+import os
 
 import numpy as np
 
 INF = float("inf")
+# share of general problems restated in another unit of length
+XUNIT_P = float(os.environ.get("VERIF_XUNIT_P", "0.03"))
 
 
 def rng_for(seed, check_id, index):
@@ -342,6 +345,14 @@ def tinyvars(spec, s):
     problem, every length (x0, bounds, radii, linear coefficients) in the new
     unit.  Steps late in such a run are far below 1e-13 in absolute terms."""
     n = spec["n"]
+    if spec.get("bounds"):
+        w = (np.asarray(spec["bounds"]["ub"], float)
+             - np.asarray(spec["bounds"]["lb"], float)) * s
+        if np.any((w > 0) & (w <= 1e-11)):
+            # 'fixed by the bounds' has an absolute floor (limits equal to
+            # rounding relative to max(1, |limits|)): a narrow range would
+            # become a fixed variable in the new unit - another problem
+            return spec
     if spec["obj"]["kind"] != "none":
         spec["obj"] = {"kind": "xscaled", "base": spec["obj"], "s": s}
     for nc in spec.get("nl", []):
@@ -402,7 +413,7 @@ def fault_plan(rng, spec, density=1):
 def general(rng, *, n=None, con=None, bound_patterns=None, x0_where=None,
             forms=("nlc",), obj_kinds=None, with_callback=None,
             with_faults=False, maxfev=(30, 160), opt_allow=None,
-            fun_none=0.0, limit_kinds=LIMIT_KINDS):
+            fun_none=0.0, limit_kinds=LIMIT_KINDS, xunit=None):
     """A random problem drawn from the whole lattice."""
     n = int(rng.integers(1, 5)) if n is None else n
     x0 = rng.uniform(-2, 2, n)
@@ -452,6 +463,11 @@ def general(rng, *, n=None, con=None, bound_patterns=None, x0_where=None,
             "con": [None, "int", "float32", "list", "int"][
                 int(rng.integers(5))]}
     spec["con_kind"] = con
+    if xunit is not False and rng.random() < XUNIT_P and not with_faults \
+            and "target" not in opts:
+        # the whole problem in another unit of length (see tinyvars)
+        spec.pop("scribble", None)
+        tinyvars(spec, float(10.0 ** rng.choice([-13, -10, -6, 5, 9])))
     return spec
 
 
